@@ -241,6 +241,47 @@ Proof.
     destruct (mapM f t) as [bs'| |]; simpl in Hm; try discriminate.
     injection Hm as <-. simpl. f_equal. apply IH. reflexivity.
 Qed.
+
+Lemma mapM_ok_iff (f : A -> res B) : forall l bs,
+  mapM f l = Ok bs <-> Forall2 (fun a b => f a = Ok b) l bs.
+Proof.
+  induction l as [|a t IH]; intros bs; simpl.
+  - split; intros Hm; [injection Hm as <-; constructor|inversion Hm; reflexivity].
+  - split.
+    + intros Hm. destruct (f a) as [b| |] eqn:Ea; simpl in Hm; try discriminate.
+      destruct (mapM f t) as [bs'| |] eqn:Et; simpl in Hm; try discriminate.
+      injection Hm as <-. constructor; auto. apply IH. reflexivity.
+    + intros Hm. inversion Hm as [|? b ? bs' Ha Ht]; subst. rewrite Ha. simpl.
+      apply IH in Ht. rewrite Ht. reflexivity.
+Qed.
+
+(* the first failing item decides, provided no item runs out of fuel *)
+Lemma mapM_raise_iff (f : A -> res B) : forall l e,
+  (forall a, In a l -> f a <> OutOfFuel) ->
+  (mapM f l = Raise e <->
+   exists l1 a l2, l = l1 ++ a :: l2 /\ (forall b, In b l1 -> exists v, f b = Ok v) /\ f a = Raise e).
+Proof.
+  induction l as [|a t IH]; intros e Hn; simpl.
+  - split; [discriminate|]. intros (l1 & a & l2 & E & _). destruct l1; discriminate.
+  - assert (Hn' : forall b, In b t -> f b <> OutOfFuel) by (intros; apply Hn; right; auto).
+    specialize (IH e Hn'). destruct (f a) as [b|e'|] eqn:Ea; simpl.
+    + split.
+      * intros Hm. destruct (mapM f t) as [bs| |] eqn:Et; simpl in Hm; try discriminate.
+        apply IH in Hm. destruct Hm as (l1 & a' & l2 & -> & H1 & H2).
+        exists (a :: l1), a', l2. split; [reflexivity|]. split; auto.
+        intros b' [<-|Hb]; eauto.
+      * intros (l1 & a' & l2 & E & H1 & H2). destruct l1 as [|c l1]; simpl in E; injection E as -> ->.
+        { congruence. }
+        assert (Ht : mapM f (l1 ++ a' :: l2) = Raise e).
+        { apply IH. exists l1, a', l2. split; auto. split; auto. intros; apply H1; right; auto. }
+        rewrite Ht. reflexivity.
+    + split.
+      * intros Hm. injection Hm as ->. exists [], a, t. split; [reflexivity|]. split; [intros ? []|exact Ea].
+      * intros (l1 & a' & l2 & E & H1 & H2). destruct l1 as [|c l1]; simpl in E; injection E as -> ->.
+        { congruence. }
+        destruct (H1 c (or_introl eq_refl)) as [v Hv]. congruence.
+    + exfalso. apply (Hn a); auto.
+Qed.
 End MapM.
 
 Lemma pyrange_0_up n : pyrange 0 n 1 = map Z.of_nat (seq 0 (Z.to_nat n)).
@@ -488,16 +529,16 @@ Lemma step_spec_next hg ms nf z x s s' : step_spec hg ms nf z x s (Next s') -> p
 Proof.
   intros [E|(H1 & H2 & t & Ht & Hc)]; [discriminate|].
   destruct Hc as [(A & B & C)|[(A & B & C)|(A & B & C)]].
-  - injection B as <-. repeat split; auto. left. tauto.
-  - destruct B as [B|B]; [|discriminate]. injection B as <-. repeat split; auto. right; left. tauto.
-  - injection B as <-. repeat split; auto. right; right. tauto.
+  - injection B as <-. split; [exact H1|]. split; [exact H2|]. split; [exact Ht|]. left. tauto.
+  - destruct B as [B|B]; [|discriminate]. injection B as <-. split; [exact H1|]. split; [exact H2|]. split; [exact Ht|]. right; left. tauto.
+  - injection B as <-. split; [exact H1|]. split; [exact H2|]. split; [exact Ht|]. right; right. tauto.
 Qed.
 Lemma step_spec_brk hg ms nf z x s s' :
   step_spec hg ms nf z x s (Brk s') -> s' = s \/ progress hg ms nf z x s s'.
 Proof.
   intros [E|(H1 & H2 & t & Ht & Hc)]; [injection E as <-; left; reflexivity|]. right.
   destruct Hc as [(A & B & C)|[(A & B & C)|(A & B & C)]]; try discriminate.
-  destruct B as [B|B]; [discriminate|]. injection B as <-. repeat split; auto. right; left. tauto.
+  destruct B as [B|B]; [discriminate|]. injection B as <-. split; [exact H1|]. split; [exact H2|]. split; [exact Ht|]. right; left. tauto.
 Qed.
 Lemma step_spec_exc hg ms nf z x s e : step_spec hg ms nf z x s (Exc e) -> False.
 Proof.
@@ -683,4 +724,178 @@ Proof.
   - rewrite ray2d_core_outside by exact Hh. discriminate.
 Qed.
 End Thm.
+
+(* ------------------------------------------------------------------------------------------ *)
+(* 5. contract of a returned ray                                                                *)
+(* ------------------------------------------------------------------------------------------ *)
+Section Thm5.
+Variables (z x zgrad xgrad : arr T) (zend xend zsrc xsrc stepsize : T) (max_step : Z) (hg : bool).
+Notation core fuel := (u_ray2d_core_v fuel z x zgrad xgrad zend xend zsrc xsrc stepsize max_step hg).
+
+(* rows that the loop keeps: shape, well-formedness, row 0 *)
+Definition ray_ok (s : St2) : Prop :=
+  1 <= s_count s <= max_step /\ shape (s_ray s) = [max_step; 2] /\ wf (s_ray s) /\
+  get (nofZ 0) (s_ray s) [0; 0] = zend /\ get (nofZ 0) (s_ray s) [0; 1] = xend.
+
+Lemma ray_ok_set_sub s p :
+  ray_ok s -> s_count s < max_step -> vec2 p ->
+  let r := set_sub (s_ray s) [s_count s] p in
+  shape r = [max_step; 2] /\ wf r /\ get (nofZ 0) r [0; 0] = zend /\ get (nofZ 0) r [0; 1] = xend /\
+  get (nofZ 0) r [s_count s; 0] = get (nofZ 0) p [0] /\ get (nofZ 0) r [s_count s; 1] = get (nofZ 0) p [1].
+Proof.
+  intros (Hc & Hsh & Hwf & H0 & H1) Hlt [Hp1 Hp2]. cbv zeta.
+  split; [exact Hsh|]. split; [apply wf_set_sub; exact Hwf|].
+  rewrite !(get_set_sub_other (nofZ 0) (s_ray s) p max_step 2 (s_count s) 0) by (auto; lia).
+  rewrite !(get_set_sub_same (nofZ 0) (s_ray s) p max_step 2 (s_count s)) by (auto; lia).
+  auto.
+Qed.
+
+Theorem ray2d_core_endpoints fuel ray count :
+  core fuel = Ok (ray, count) -> 1 <= count ->
+  shape ray = [max_step; 2] /\ wf ray /\ count < max_step /\
+  get (nofZ 0) ray [0; 0] = zend /\ get (nofZ 0) ray [0; 1] = xend /\
+  get (nofZ 0) ray [count; 0] = zsrc /\ get (nofZ 0) ray [count; 1] = xsrc.
+Proof.
+  intros Hc Hpos.
+  destruct (ray2d_core_count_range z x zgrad xgrad zend xend zsrc xsrc stepsize max_step hg fuel ray count Hc)
+    as [Hr Hsh].
+  assert (Hlt : count < max_step) by lia.
+  destruct (hull2 z x zend xend) eqn:Hh.
+  2:{ rewrite ray2d_core_outside in Hc by exact Hh. injection Hc as _ <-. lia. }
+  destruct (ray2d_core_char z x zgrad xgrad zend xend zsrc xsrc stepsize max_step hg Hh)
+    as (cond & body & s0 & Heq & (Hc0 & _ & _ & Hr0 & Hi0) & Hstep).
+  rewrite Heq in Hc. destruct (while_fuel fuel cond body s0) as [s1| |] eqn:Ew; simpl in Hc; try discriminate.
+  destruct (loop_inv _ _ _ _ _ cond body Hstep ray_ok) with (4 := Ew) as (_ & Hok); auto.
+  - intros s s' Hok _ (Hlt' & _ & [Hv _] & Hcase).
+    destruct Hcase as [(A & B & C & D & _)|[(A & B & C & D)|(A & B & C & D)]].
+    + destruct (ray_ok_set_sub s (s_pcur s') Hok Hlt' Hv) as (R1 & R2 & R3 & R4 & _).
+      destruct Hok as (Hc1 & _). unfold ray_ok. rewrite B, D. repeat split; auto; lia.
+    + destruct (ray_ok_set_sub s (s_pcur s') Hok Hlt' Hv) as (R1 & R2 & R3 & R4 & _).
+      destruct Hok as (Hc1 & _). unfold ray_ok. rewrite B, D. repeat split; auto; lia.
+    + unfold ray_ok in *. rewrite B, D. exact Hok.
+  - (* initially *)
+    unfold ray_ok. rewrite Hc0, Hr0.
+    assert (Hwf0 : wf (full [max_step; 2] (nofZ 0))).
+    { apply wf_full. repeat constructor; lia. }
+    split; [lia|]. split; [reflexivity|]. split; [apply wf_set_sub; exact Hwf0|].
+    rewrite !(get_set_sub_same (nofZ 0) (full [max_step; 2] (nofZ 0)) (of_list [zend; xend]) max_step 2 0)
+      by (auto; try reflexivity; lia).
+    split; reflexivity.
+  - unfold fin2 in Hc. destruct ((max_step <=? s_count s1) || _) eqn:Eb; injection Hc as <- <-; [lia|].
+    apply orb_false_elim in Eb. destruct Eb as [Eb _]. apply Z.leb_gt in Eb.
+    destruct (ray_ok_set_sub s1 (of_list [zsrc; xsrc]) Hok Eb (vec2_of_list zsrc xsrc))
+      as (R1 & R2 & R3 & R4 & R5 & R6).
+    repeat split; auto.
+Qed.
+
+End Thm5.
+
+Theorem ray2d_1_endpoints fuel (z x zgrad xgrad p src : arr T) (stepsize : T) (max_step : Z) (hg : bool) r :
+  ray2d_1 fuel z x zgrad xgrad p src stepsize max_step hg = Ok r ->
+  exists count, 1 <= count < max_step /\ shape r = [count + 1; 2] /\
+    get (nofZ 0) r [0; 0] = get (nofZ 0) src [0] /\ get (nofZ 0) r [0; 1] = get (nofZ 0) src [1] /\
+    get (nofZ 0) r [count; 0] = get (nofZ 0) p [0] /\ get (nofZ 0) r [count; 1] = get (nofZ 0) p [1].
+Proof.
+  unfold ray2d_1, u_ray2d_v. intros Hr.
+  destruct (u_ray2d_core_v _ _ _ _ _ _ _ _ _ _ _ _) as [[ray count]| |] eqn:Ec; simpl in Hr; try discriminate.
+  destruct (ray2d_core_count_range _ _ _ _ _ _ _ _ _ _ _ _ _ _ Ec) as [Hrange _].
+  destruct (Z.eqb_spec count (-1)); [discriminate|].
+  destruct (Z.eqb_spec count (-2)); [discriminate|]. simpl in Hr. injection Hr as <-.
+  assert (Hpos : 1 <= count) by lia.
+  destruct (ray2d_core_endpoints _ _ _ _ _ _ _ _ _ _ _ _ _ _ Ec Hpos) as (Hsh & Hwf & Hlt & E0 & E1 & E2 & E3).
+  exists count. split; [lia|]. split; [apply shape_rev_prefix with (n := max_step); exact Hsh|].
+  rewrite !(get_rev_prefix (nofZ 0) ray max_step 2 count) by (auto; lia).
+  rewrite Z.sub_0_r, Z.sub_diag. auto.
+Qed.
+
+(* ------------------------------------------------------------------------------------------ *)
+(* 7. the list form                                                                             *)
+(* ------------------------------------------------------------------------------------------ *)
+Definition count_exc (it : arr T * Z) : option exn :=
+  if snd it =? -1 then Some ValueError else if snd it =? -2 then Some RuntimeError else None.
+
+Section Thm7.
+Variables (z x zgrad xgrad zend xend : arr T) (zsrc xsrc stepsize : T) (max_step : Z) (hg : bool).
+Notation core_i fuel := (fun i : Z => u_ray2d_core_v fuel z x zgrad xgrad (get (nofZ 0) zend [i])
+                                     (get (nofZ 0) xend [i]) zsrc xsrc stepsize max_step hg).
+Notation single_i fuel := (fun i : Z => u_ray2d_v fuel z x zgrad xgrad (get (nofZ 0) zend [i])
+                                     (get (nofZ 0) xend [i]) zsrc xsrc stepsize max_step hg).
+Notation items := (pyrange 0 (dim zend 0%nat) 1).
+
+Theorem ray2d_vectorized_spec fuel :
+  u_ray2d_vectorized_v fuel z x zgrad xgrad zend xend zsrc xsrc stepsize max_step hg =
+  rbind (mapM (core_i fuel) items)
+        (fun l => match first_exc count_exc l with Some e => Raise e | None => Ok l end).
+Proof.
+  unfold u_ray2d_vectorized_v.
+  destruct (mapM _ items) as [l| |] eqn:Em; simpl; try reflexivity.
+  pose proof (mapM_ok_length _ _ _ Em) as Hl.
+  assert (Hn : length items = Z.to_nat (dim zend 0%nat)).
+  { rewrite pyrange_0_up, map_length, seq_length. reflexivity. }
+  rewrite Hn in Hl.
+  pose proof (find_exc_range count_exc (mkarr [0] [], 0) l (dim zend 0%nat) Hl) as E.
+  unfold count_exc in E at 1. rewrite E. reflexivity.
+Qed.
+
+Lemma single_of_core fuel i rc :
+  core_i fuel i = Ok rc ->
+  single_i fuel i = match count_exc rc with Some e => Raise e | None => Ok rc end.
+Proof.
+  intros Ec. unfold u_ray2d_v. cbv beta in Ec. rewrite Ec. simpl. unfold count_exc.
+  destruct rc as [ray count]. simpl. destruct (count =? -1); [reflexivity|].
+  destruct (count =? -2); reflexivity.
+Qed.
+
+(* modulo OutOfFuel the list call is the sequential map of the single call *)
+Theorem ray2d_vectorized_as_singles fuel :
+  (forall i, In i items -> core_i fuel i <> OutOfFuel) ->
+  u_ray2d_vectorized_v fuel z x zgrad xgrad zend xend zsrc xsrc stepsize max_step hg =
+  mapM (single_i fuel) items.
+Proof.
+  rewrite ray2d_vectorized_spec. generalize items. intros l Hn.
+  induction l as [|i t IH]; [reflexivity|].
+  assert (Hn' : forall j, In j t -> core_i fuel j <> OutOfFuel) by (intros; apply Hn; right; auto).
+  specialize (IH Hn'). cbn [mapM].
+  destruct (core_i fuel i) as [rc|e|] eqn:Ec.
+  - rewrite (single_of_core fuel i rc Ec). cbn [rbind]. rewrite <- IH.
+    destruct (mapM (core_i fuel) t) as [bs|e|] eqn:Et; cbn [rbind first_exc].
+    + destruct (count_exc rc); cbn [rbind]; [reflexivity|].
+      destruct (first_exc count_exc bs); reflexivity.
+    + exfalso. apply (mapM_raise_iff (core_i fuel) t e Hn') in Et.
+      destruct Et as (l1 & a & l2 & _ & _ & Ha). cbv beta in Ha.
+      exact (ray2d_core_no_raise _ _ _ _ _ _ _ _ _ _ _ _ _ Ha).
+    + destruct (count_exc rc); cbn [rbind]; [|reflexivity].
+      (* an exhausted later item: excluded by the hypothesis *)
+      exfalso. clear - Et Hn'. revert Et Hn'. generalize (core_i fuel). intros f Et Hn'.
+      induction t as [|a t IHt]; simpl in Et; [discriminate|].
+      destruct (f a) eqn:Ea; simpl in Et; try discriminate.
+      * destruct (mapM f t) eqn:Et'; simpl in Et; try discriminate. apply IHt; auto.
+        intros; apply Hn'; right; auto.
+      * apply (Hn' a); auto. left; reflexivity.
+  - exfalso. cbv beta in Ec. exact (ray2d_core_no_raise _ _ _ _ _ _ _ _ _ _ _ _ _ Ec).
+  - exfalso. apply (Hn i); auto. left; reflexivity.
+Qed.
+
+Lemma single_not_oof fuel i : core_i fuel i <> OutOfFuel -> single_i fuel i <> OutOfFuel.
+Proof.
+  intros Hc. unfold u_ray2d_v. cbv beta in Hc.
+  destruct (u_ray2d_core_v _ _ _ _ _ _ _ _ _ _ _ _) as [[ray count]| |]; simpl; try discriminate; try congruence.
+  destruct (count =? -1); [discriminate|]. destruct (count =? -2); discriminate.
+Qed.
+
+Theorem ray2d_list_raises_like_first_failing_single fuel :
+  (forall i, In i items -> core_i fuel i <> OutOfFuel) ->
+  (forall e,
+     u_ray2d_vectorized_v fuel z x zgrad xgrad zend xend zsrc xsrc stepsize max_step hg = Raise e <->
+     exists l1 i l2, items = l1 ++ i :: l2 /\
+       (forall j, In j l1 -> exists rc, single_i fuel j = Ok rc) /\ single_i fuel i = Raise e) /\
+  (forall l,
+     u_ray2d_vectorized_v fuel z x zgrad xgrad zend xend zsrc xsrc stepsize max_step hg = Ok l <->
+     Forall2 (fun i rc => single_i fuel i = Ok rc) items l).
+Proof.
+  intros Hn. rewrite (ray2d_vectorized_as_singles fuel Hn). split.
+  - intros e. apply mapM_raise_iff. intros i Hi. apply single_not_oof. apply Hn. exact Hi.
+  - intros l. apply mapM_ok_iff.
+Qed.
+End Thm7.
 End Core2.
